@@ -305,6 +305,16 @@ func pureCalls() (all []pureCall, core []pureCall) {
 		C(A("Split+extend-results", func(p *canvas.Path, a *args) { ext(p, p.Split()...) })),
 		A("SplitAt+extend-results", func(p *canvas.Path, a *args) { ext(p, p.SplitAt(0.5, 1.5)...) }),
 		A("Copy+extend-result", func(p *canvas.Path, a *args) { ext(p, p.Copy()) }),
+		A("CopyTo(longer target)+extend-result", func(p *canvas.Path, a *args) {
+			q := canvas.MustParseSVGPath("M9 9L8 8L7 9L6 8L5 9L4 8L3 9L2 8L1 9L0 8L9 7L8 6L7 7L6 6L5 7z")
+			res := p.CopyTo(q)
+			if !res.Equals(p) {
+				panic("CopyTo: the target does not equal the receiver")
+			}
+			ext(p, res)
+		}),
+		A("CopyTo(empty target)+extend-result", func(p *canvas.Path, a *args) { ext(p, p.CopyTo(&canvas.Path{})) }),
+		A("CopyTo(nil)+extend-result", func(p *canvas.Path, a *args) { ext(p, p.CopyTo(nil)) }),
 		A("Reverse+extend-result", func(p *canvas.Path, a *args) { ext(p, p.Reverse()) }),
 		C(A("Flatten+extend-result", func(p *canvas.Path, a *args) { ext(p, p.Flatten(0.1)) })),
 		A("ReplaceArcs+extend-result", func(p *canvas.Path, a *args) { ext(p, p.ReplaceArcs()) }),
